@@ -245,6 +245,10 @@ def depth_witnesses(exe):
     cases = [(('rep', ('lit', 'a'), 0, -1), 'a' * 200 + '\n', 200, 0),
              (('rep', ('brk', False, [('range', 'a', 'z')]), 1, -1), 'x' * 150 + ' y\n', 150, 0),
              (('cat', [('rep', ('any',), 0, -1), ('lit', 'z')]), 'q' * 180 + 'z\n', 181, 0),
+             # depth is a matter of ONE attempt: the many failed start positions in front of a late match must not use it up
+             (('cat', [('lit', 'b'), ('rep', ('lit', 'c'), 0, 1)]), 'z' * 300 + 'b\n', 1, 0),
+             (('cat', [('brk', False, [('range', 'a', 'c')]), ('lit', 'c')]), 'z' * 700 + 'ac\n', 2, 0),
+             (('alt', ('lit', 'xy'), ('cat', [('lit', 'b'), ('rep', ('lit', 'b'), 1, -1)])), 'zž' * 200 + 'bbbb\n', 4, 0),
              (('rep', ('lit', 'a'), 0, -1), 'a' * 400 + '\n', None, 1)]
     text = []
     for ast, line, want, expect_cut in cases:
@@ -307,6 +311,11 @@ def run(tier, V):
         for _ in range(6):
             line = ''.join(R.choice(lits + [' ', 'a', 'b']) for _ in range(R.randint(1, 14))) + '\n'
             cases.append((line, R.randrange(16)))
+        if R.random() < 0.3:
+            # a long run of characters the pattern's literals do not contain, then material it may match: the leftmost match
+            # begins beyond character 256 (every earlier start position has to fail first)
+            line = R.choice(['z', 'z', 'q', 'ž']) * R.choice([254, 255, 256, 257, 300, 513]) + ''.join(R.choice(lits + [' ', 'a', 'b']) for _ in range(R.randint(1, 10))) + '\n'
+            cases.append((line, R.choice([0, 0, 2, 8])))
         items.append((ast, cases))
         if len(items) == 12:
             jobs.append((exe, items))
